@@ -878,7 +878,12 @@ def main():
         chk.sample(s)
     chk.assumptions += ["a hang is observed as 'no answer within %d s' on this machine" % TIMEOUT,
                         "the set of inputs is generated, not exhaustive: absence of a violation is not a proof"]
-    return chk.finish(level="exploration")
+    # the part of the property that is logic: the dependency sort terminates on every definition graph
+    # (theorem C13_sort_total about the Coq model; the model is tied to model.topological_sort here)
+    import sortcorr
+    sortcorr.run(chk, 300 if chk.tier == 'quick' else 5000, 3)
+    chk.assumptions += ['PLY, ElementTree, argparse and libclang are not modelled: the theorem covers the dependency sort of the middle end; everything else is decided by the robustness run']
+    return chk.finish(level="proof")
 
 
 if __name__ == "__main__":
